@@ -376,7 +376,8 @@ theorem forward_inv (lit : Bytes → Option Bool) (s : PS) (h : SrvInv s) (req :
       p1.cin = s.p.cin ∧ p1.nCin = s.p.nCin ∧ p1.close = s.p.close ∧ p1.session = s.p.session ∧
       (({ s with p := p1 }).acts a).clientRead = s.clientRead ∧
       (({ s with p := p1 }).acts a).accepting = s.accepting ∧
-      (({ s with p := p1 }).acts a).fromClient = s.fromClient := by
+      (({ s with p := p1 }).acts a).fromClient = s.fromClient ∧
+      (({ s with p := p1 }).acts a).sessions = s.sessions := by
   unfold forwardRequest at hf
   match hrw : rewrite req with
   | .error _ => simp [hrw] at hf
@@ -403,7 +404,7 @@ theorem forward_inv (lit : Bytes → Option Bool) (s : PS) (h : SrvInv s) (req :
       by_cases hconn : s.p.connecting = true
       · simp only [hconn, if_true, Except.ok.injEq, Prod.mk.injEq] at hf
         obtain ⟨rfl, rfl⟩ := hf
-        refine ⟨?_, by simp [PS.act], by simp [PS.act], rfl, rfl, rfl, rfl, by simp [PS.act], by simp [PS.act], by simp [PS.act]⟩
+        refine ⟨?_, by simp [PS.act], by simp [PS.act], rfl, rfl, rfl, rfl, by simp [PS.act], by simp [PS.act], by simp [PS.act], by simp [PS.act]⟩
         constructor
         case nSout_le => simp [PS.act]; omega
         case fifo => simpa [PS.act] using hfifo
@@ -417,7 +418,7 @@ theorem forward_inv (lit : Bytes → Option Bool) (s : PS) (h : SrvInv s) (req :
           · rw [wssb_writing _ (by simpa using hw)] at hf
             simp only [Except.ok.injEq, Prod.mk.injEq] at hf
             obtain ⟨rfl, rfl⟩ := hf
-            refine ⟨?_, by simp [PS.act], by simp [PS.act], rfl, rfl, rfl, rfl, by simp [PS.act], by simp [PS.act], by simp [PS.act]⟩
+            refine ⟨?_, by simp [PS.act], by simp [PS.act], rfl, rfl, rfl, rfl, by simp [PS.act], by simp [PS.act], by simp [PS.act], by simp [PS.act]⟩
             constructor
             case nSout_le => simp [PS.act]; omega
             case fifo => simpa [PS.act] using hfifo
@@ -427,7 +428,7 @@ theorem forward_inv (lit : Bytes → Option Bool) (s : PS) (h : SrvInv s) (req :
             rw [wssb_idle _ (by simpa using hw') (by simp; omega)] at hf
             simp only [Except.ok.injEq, Prod.mk.injEq] at hf
             obtain ⟨rfl, rfl⟩ := hf
-            refine ⟨?_, by simp [PS.act], by simp [PS.act], rfl, rfl, rfl, rfl, by simp [PS.act], by simp [PS.act], by simp [PS.act]⟩
+            refine ⟨?_, by simp [PS.act], by simp [PS.act], rfl, rfl, rfl, rfl, by simp [PS.act], by simp [PS.act], by simp [PS.act], by simp [PS.act]⟩
             constructor
             case nSout_le => simp [PS.act]; omega
             case fifo => simpa [PS.act] using hfifo
@@ -448,7 +449,7 @@ theorem forward_inv (lit : Bytes → Option Bool) (s : PS) (h : SrvInv s) (req :
           | none =>
             simp only [hl, Except.ok.injEq, Prod.mk.injEq] at hf
             obtain ⟨rfl, rfl⟩ := hf
-            refine ⟨?_, by simp [PS.act], by simp [PS.act], rfl, rfl, rfl, rfl, by simp [PS.act], by simp [PS.act], by simp [PS.act]⟩
+            refine ⟨?_, by simp [PS.act], by simp [PS.act], rfl, rfl, rfl, rfl, by simp [PS.act], by simp [PS.act], by simp [PS.act], by simp [PS.act]⟩
             constructor
             case nSout_le => simp [PS.act]; omega
             case fifo => simpa [PS.act] using hfifo
@@ -461,7 +462,7 @@ theorem forward_inv (lit : Bytes → Option Bool) (s : PS) (h : SrvInv s) (req :
           | some v4 =>
             simp only [hl, openForward, Except.ok.injEq, Prod.mk.injEq] at hf
             obtain ⟨rfl, rfl⟩ := hf
-            refine ⟨?_, by simp [PS.act], by simp [PS.act], rfl, rfl, rfl, rfl, by simp [PS.act], by simp [PS.act], by simp [PS.act]⟩
+            refine ⟨?_, by simp [PS.act], by simp [PS.act], rfl, rfl, rfl, rfl, by simp [PS.act], by simp [PS.act], by simp [PS.act], by simp [PS.act]⟩
             constructor
             case nSout_le => simp [PS.act]; omega
             case fifo => simpa [PS.act] using hfifo
@@ -579,7 +580,7 @@ theorem loop_inv (lit : Bytes → Option Bool) : ∀ (f : Nat) (s : PS), LoopInv
           exact PSInv_closeConnection _ _ hsrv.no_ub (by simp [hacc])
         | .ok (p1, a) =>
           simp only []
-          obtain ⟨rw, hrw, hsrv1, hq1, hp1, hcin, hncin, hclose, hses, hcr1, hacc1, hfc1⟩ := forward_inv lit s hsrv req p1 a hfw
+          obtain ⟨rw, hrw, hsrv1, hq1, hp1, hcin, hncin, hclose, hses, hcr1, hacc1, hfc1, -⟩ := forward_inv lit s hsrv req p1 a hfw
           have hdl : (pend.drop n).length ≤ BUF := by simp; omega
           rw [memWrite_ok _ _ _ (by simpa using hdl)]
           simp only [List.nil_append]
@@ -676,5 +677,143 @@ theorem PSInv_run (lit : Bytes → Option Bool) : ∀ (es : List Ev) (s : PS), P
   | cons e rest ih =>
     intro s h hok
     exact ih _ (PSInv_step lit s h e hok.1) hok.2
+
+
+/-! ### what ends a session, and what `stop()` changes -/
+
+theorem closeConnection_sessions (s : PS) (p' : Px) :
+    (s.apply (closeConnection p')).sessions = s.sessions + 1 ∧
+    (s.apply (closeConnection p')).clientRead = none ∧
+    (s.apply (closeConnection p')).accepting = (if p'.close = true then s.accepting else true) := by
+  by_cases hc : p'.close = true <;> simp [PS.apply, PS.act, closeConnection, hc]
+
+/-- a request that does not parse, or is not an `http://` absolute URI, closes the client connection:
+    if the reading of the pending bytes ends in `none`, the loop ends in `close_connection()` -/
+theorem loop_closes (lit : Bytes → Option Bool) : ∀ (f : Nat) (s : PS), LoopInv s → s.p.nCin + 1 ≤ f →
+    (scan (s.p.nCin + 1) (view s.p.cin s.p.nCin)).2 = none →
+    (s.apply (requestLoop lit f s.p [])).sessions = s.sessions + 1 ∧
+    (s.apply (requestLoop lit f s.p [])).clientRead = none := by
+  intro f
+  induction f with
+  | zero => intro s _ h; omega
+  | succ f ih =>
+    intro s hL hf hnone
+    obtain ⟨hsrv, hle, hcr, hacc, l, hq, hscan⟩ := hL
+    unfold requestLoop
+    rw [memRead_zero _ _ hle]
+    simp only []
+    generalize hpend : view s.p.cin s.p.nCin = pend at hscan hnone ⊢
+    have hlen : pend.length = s.p.nCin := by rw [← hpend]; simp
+    have hcast : ((s.p.nCin : Nat) : Int) = ((pend.length : Nat) : Int) := by rw [hlen]
+    rw [hcast]
+    rw [← hlen] at hscan hnone
+    rcases findRequestLen_cases pend with hm | ⟨n, hn, h4, hnle⟩
+    · rw [scan_step_more pend hm] at hnone
+      simp at hnone
+    · rw [hn]
+      simp only [show ¬ ((n : Int) < 0) by omega, if_false, Int.toNat_natCast]
+      match hp : parseRequest pend n with
+      | .oob => exact absurd hp (parseRequest_ne_oob pend n hnle)
+      | .parseFailed =>
+        simp only [List.nil_append]
+        have := closeConnection_sessions s s.p
+        exact ⟨this.1, this.2.1⟩
+      | .ok req =>
+        simp only []
+        match hfw : forwardRequest lit s.p req with
+        | .error _ =>
+          simp only [List.nil_append]
+          have := closeConnection_sessions s s.p
+          exact ⟨this.1, this.2.1⟩
+        | .ok (p1, a) =>
+          simp only []
+          obtain ⟨rw, hrw, hsrv1, hq1, hp1, hcin, hncin, hclose, hses, hcr1, hacc1, hfc1, hss1⟩ := forward_inv lit s hsrv req p1 a hfw
+          have hdl : (pend.drop n).length ≤ BUF := by simp; omega
+          rw [memWrite_ok _ _ _ (by simpa using hdl)]
+          simp only [List.nil_append]
+          rw [requestLoop_acc]
+          let s1 : PS := { (({ s with p := p1 }).acts a) with
+                            p := { p1 with cin := written p1.cin 0 (pend.drop n), nCin := p1.nCin - n } }
+          have hs1 : s.apply ((requestLoop lit f { p1 with cin := written p1.cin 0 (pend.drop n), nCin := p1.nCin - n } []).1,
+                              a ++ (requestLoop lit f { p1 with cin := written p1.cin 0 (pend.drop n), nCin := p1.nCin - n } []).2)
+                       = s1.apply (requestLoop lit f s1.p []) := by
+            simp only [PS.apply, PS.acts_append, PS.acts_setP, s1]
+          rw [hs1]
+          have hv : view (written p1.cin 0 (pend.drop n)) (p1.nCin - n) = pend.drop n := by
+            have := view_written_zero p1.cin (pend.drop n)
+            have hl2 : (pend.drop n).length = p1.nCin - n := by simp; omega
+            rw [hl2] at this
+            exact this
+          have hl3 : p1.nCin - n = (pend.drop n).length := by simp; omega
+          have hsreq := scan_step_req pend n req rw hn hp hrw
+          have hss : s1.sessions = s.sessions := by simpa [s1] using hss1
+          rw [← hss]
+          apply ih
+          · refine ⟨?_, ?_, ?_, ?_, ?_⟩
+            · have := hsrv1.setCin (written p1.cin 0 (pend.drop n)) (p1.nCin - n)
+              simpa [s1, hp1] using this
+            · simp [s1]; omega
+            · simpa [s1] using hcr1.trans hcr
+            · simpa [s1] using hacc1.trans hacc
+            · refine ⟨l ++ [rw], ?_, ?_⟩
+              · simp only [s1]
+                rw [hq1, hq, outs_append]
+              · rw [hsreq] at hscan
+                simp only [s1, hfc1, hv]
+                rw [hl3, hscan]
+                simp
+          · simp [s1]; omega
+          · simp only [s1, hv]
+            rw [hl3]
+            rw [hsreq] at hnone
+            exact hnone
+
+theorem forwardRequest_close (lit : Bytes → Option Bool) (p : Px) (req : Request) (p1 : Px) (a : List Act)
+    (hh : forwardRequest lit p req = .ok (p1, a)) : p1.close = p.close := by
+  unfold forwardRequest at hh
+  split at hh
+  · cases hh
+  · split at hh
+    · cases hh
+    · split at hh
+      · simp only [Except.ok.injEq, Prod.mk.injEq] at hh; rw [← hh.1]
+      · simp only [] at hh
+        split at hh
+        · simp only [Except.ok.injEq, Prod.mk.injEq] at hh; rw [← hh.1]
+        · split at hh
+          · split at hh
+            · simp only [Except.ok.injEq, Prod.mk.injEq] at hh; rw [← hh.1]
+            · simp only [openForward, Except.ok.injEq, Prod.mk.injEq] at hh; rw [← hh.1]
+          · simp only [writeServerSendBuffer, Except.ok.injEq, Prod.mk.injEq] at hh
+            rw [← hh.1]
+            split
+            · rfl
+            · split <;> rfl
+
+theorem requestLoop_close (lit : Bytes → Option Bool) : ∀ (f : Nat) (p : Px) (acts : List Act),
+    (requestLoop lit f p acts).1.close = p.close := by
+  intro f
+  induction f with
+  | zero => intro p acts; simp [requestLoop]
+  | succ f ih =>
+    intro p acts
+    unfold requestLoop
+    split
+    · rfl
+    · split
+      · rfl
+      · split
+        · split <;> simp [closeConnection]
+        · split
+          · rfl
+          · simp [closeConnection]
+          · split
+            · simp [closeConnection]
+            · rename_i hfw
+              have hc := forwardRequest_close lit _ _ _ _ hfw
+              split
+              · exact hc
+              · rw [ih]
+                exact hc
 
 end SimVerif.HttpProxy
